@@ -63,6 +63,7 @@ type mvol struct {
 	Size       uint64
 	RO         bool
 	Remote     bool
+	OverAtReg  bool // the size was at or above the limit when this replica was registered
 }
 
 type mec struct {
@@ -117,6 +118,7 @@ type topoRun struct {
 	limit   uint64
 	taint   string
 	ecDefs  map[uint32]mec
+	prevWritable map[uint32]bool
 }
 
 func rpOf(s string) *super_block.ReplicaPlacement {
@@ -200,6 +202,14 @@ func (t *topoRun) connect(s *mserver) {
 // the registered state is what each connected server last reported.
 func (t *topoRun) applyFull(s *mserver, st vsState, withEc bool) {
 	c := st.clone()
+	for vid, v := range c.vols {
+		if old, had := s.reg.vols[vid]; had {
+			v.OverAtReg = old.OverAtReg
+		} else {
+			v.OverAtReg = t.limit > 0 && v.Size >= t.limit
+		}
+		c.vols[vid] = v
+	}
 	s.reg.vols = c.vols
 	if withEc {
 		s.reg.ecs = c.ecs
@@ -257,10 +267,6 @@ func (t *topoRun) exec() {
 			}
 		case "dup":
 			if s.reg != nil && s.lastMsg != nil {
-				if len(s.lastMsg.DeletedVolumes) > 0 {
-					// a duplicated incremental deletion names volumes the master no longer has for this server
-					s.tainted = "stale-incremental-delete"
-				}
 				t.replay(s, s.lastMsg)
 				r.Log("dup %s", s.id())
 				r.Abs("dup")
@@ -430,7 +436,6 @@ func (t *topoRun) delta(s *mserver, st *simkit.Step, rng *simkit.Rand) {
 		if _, has := s.reg.vols[ghost.Id]; !has && !inActual {
 			hb.DeletedVolumes = append(hb.DeletedVolumes, ghost.short())
 			t.r.Fault("stale-incremental-delete")
-			s.tainted = "stale-incremental-delete"
 		}
 	}
 	if len(hb.NewVolumes) == 0 && len(hb.DeletedVolumes) == 0 {
@@ -455,6 +460,19 @@ func (t *topoRun) ecDelta(s *mserver, st *simkit.Step, rng *simkit.Rand) {
 		del := g.Bits &^ s.actual.ecs[vid].Bits
 		if del != 0 {
 			hb.DeletedEcShards = append(hb.DeletedEcShards, mec{vid, g.Collection, del, g.Disk}.msg())
+		}
+	}
+	if st.Int("stale") == 1 {
+		// a late or duplicated deletion: it names shards of a registered EC volume that the master
+		// does not hold for this server (any more), possibly together with ones it does hold
+		for _, vid := range sortedEc(s.reg.ecs) {
+			g := s.reg.ecs[vid]
+			ghost := uint32(st.Int("bits")) &^ g.Bits & (1<<14 - 1)
+			if ghost != 0 {
+				hb.DeletedEcShards = append(hb.DeletedEcShards, mec{vid, g.Collection, ghost, g.Disk}.msg())
+				t.r.Fault("stale-ec-shard-delete")
+				break
+			}
 		}
 	}
 	if len(hb.NewEcShards) == 0 && len(hb.DeletedEcShards) == 0 {
@@ -497,6 +515,14 @@ func (t *topoRun) taintOf(ids ...string) string {
 }
 
 func (t *topoRun) checkC11(after string) {
+	defer func() {
+		t.prevWritable = map[uint32]bool{}
+		for _, l := range t.m.MS.Topo.VerifLayouts() {
+			for _, w := range l.Writables {
+				t.prevWritable[w] = true
+			}
+		}
+	}()
 	if !t.checkC11once(after, false) {
 		// The size clause is enforced by the master's periodic sweep (every 1-2 pulses
 		// of 5 s), not by the heartbeat itself: give it four pulses of fake time
@@ -561,6 +587,11 @@ func (t *topoRun) checkC11once(after string, final bool) bool {
 				if why == "" {
 					for _, v := range rv.vols {
 						if v.Size >= t.limit {
+							if v.OverAtReg && !t.prevWritable[w] {
+								// the replica was registered oversized, yet the volume has just BECOME writable
+								why = fmt.Sprintf("a replica was registered with size %d at or above the limit %d and the volume became writable afterwards", v.Size, t.limit)
+								break
+							}
 							if !final {
 								return false
 							}
@@ -868,7 +899,11 @@ func genTopo(prop string) func(tier string, seed uint64, idx int) *simkit.Plan {
 			case x < 66 && prop == "C12":
 				p.Add(simkit.St("mutate", rng.Uint64(), "node", n, "what", "ecdel", "vid", 50+rng.Intn(3), "bits", 1+rng.Intn(1<<14-1)))
 			case x < 70 && prop == "C12":
-				p.Add(simkit.St("ecdelta", rng.Uint64(), "node", n))
+				if faults && rng.Chance(1, 2) {
+					p.Add(simkit.St("ecdelta", rng.Uint64(), "node", n, "stale", 1, "bits", 1+rng.Intn(1<<14-1)))
+				} else {
+					p.Add(simkit.St("ecdelta", rng.Uint64(), "node", n))
+				}
 			case x < 84:
 				p.Add(simkit.St("full", rng.Uint64(), "node", n, "ec", rng.Intn(2)))
 			case x < 92:
